@@ -11,15 +11,17 @@ META = {
     "technique": "Coq proof (literal list-ascii model of path.cc/stringutility.hh refines the component stack-machine spec, "
                  "all strings) + extracted-model vs C++ differential correspondence, exhaustive over a 4-letter path alphabet, "
                  "with the extracted spec as oracle on the impl's own output",
-    "text": "Theorems in coq/Properties_C18.v, for ALL strings: C18_bridge (processPath p = rendering of the denotation of p; the literal "
-            "index-based /../ loop is proved equal to the component stack machine), hence C18_normal_form, C18_denote, C18_idempotent, "
-            "C18_abs_never_escapes, C18_terminates (fuel |p|+2); C18_pretty, C18_isdir and C18_concat (documented tables + denotational meaning); "
-            "C18_relative_inverse (inverse law, normal form of the result, exact error condition; via the lemma that the character-level common "
-            "prefix + back-up of two rendered locations is the rendered common component prefix); "
-            "C18_prefix_suffix; C18_format (every expansion length, buffer size re-read from the source).  No partial theorems remain.  "
-            "The model is tied to dune/common/path.cc and stringutility.hh on every run "
-            "by running the extracted model and the C++ functions on identical inputs (all strings over {/,.,a,b} up to length 7/8, all pairs up "
-            "to length 4/5, seeded long paths with arbitrary bytes, format lengths around the buffer size) and judging the C++ output with the extracted spec.",
+    "text": "Theorems in coq/Properties_C18.v, all for ALL strings over all characters (no bounded sweeps): C18_bridge (processPath p = rendering of the "
+            "denotation of p; the literal index-based /../ loop is proved equal to the component stack machine), C18_pass_invariants (the assertions "
+            "written as comments between the passes), C18_normal_form, C18_normal_form_fixpoint, C18_denote, C18_denote_iff_same_sanitised, C18_idempotent, "
+            "C18_abs_never_escapes, C18_terminates (fuel |p|+2); C18_pretty, C18_pretty_trailing_slash, C18_pretty_denote, C18_isdir, C18_concat, "
+            "C18_concat_sanitized (documented tables + denotational meaning); C18_relative_inverse, C18_relative_roundtrip, C18_relative_errors "
+            "(inverse law, normal form of the result, exact error condition and exception texts re-read from path.cc); C18_prefix_suffix(_cstring); "
+            "C18_format, C18_format_boundary, C18_format_error, C18_format_any_buffer (every expansion length, buffer size re-read from the source); "
+            "C18_oracles_exact (the executable oracles are exactly the stated predicates); the header's example tables as Example C18_doc_tables.  "
+            "No partial theorems.  The model is tied to dune/common/path.cc and stringutility.hh on every run by running the extracted model and "
+            "the C++ functions on identical inputs (all strings over {/,.,a,b} up to length 7/8, all pairs up to length 4/5, name-pool pairs (lib/lib64), "
+            "seeded long paths with arbitrary bytes, format lengths around the buffer size, exception payloads) and judging the C++ output with the extracted spec.",
     "note": "Trusted: Coq kernel, extraction, OCaml driver, C++ harness, g++/libstdc++ std::string, snprintf "
             "(contract: returns the full expansion length and stores the first n-1 characters).",
     "design_ref": "DESIGN.md section 4 C18",
@@ -65,7 +67,7 @@ def unary_cases(p):
 
 
 COMP_POOL = ["", "", ".", ".", "..", "..", "..", "a", "b", "a", "b", "c", "..a", "a..", "...", ".a", "a.", "x.y", "dir",
-             "-", "a b", "%41", "\t", "..\x01", "\xe4", "....", ". ", " ..", "lib", "lib64", "li", "lib", "usr", "us", "\x00", "a\x00b", "..\x00"]
+             "-", "a b", "%41", "\t", "..\x01", "\xe4", "....", ". ", " ..", "lib", "lib64", "li", "lib", "usr", "us", "\x00", "a\x00b", "..\x00", "\"", "x\"y", "]: "]
 # component names that are prefixes of one another (character-level common prefix ends inside a component)
 NAME_POOL = ["lib", "lib64", "li", "..", "."]
 CONTAINERS = ["vec", "list", "sv", "deque"]
@@ -340,7 +342,8 @@ def run(ctx):
     })
     ctx.assumptions += ["std::snprintf contract (returns the length of the full expansion, stores its first n-1 characters and a NUL)",
                         "format expansions handed to the model are computed by Python's % operator (same as C printf for %s %d %u %x %o %f %e %g %c with flags/width/precision)",
-                        "std::string::find/erase/substr/resize have their documented meaning (modelled by list functions)"]
+                        "std::string::find/erase/substr/resize have their documented meaning (modelled by list functions)",
+                        "exception messages are observed through what() (a C string: compared up to the first NUL), after the 'Class [function:file:line]: ' prefix that DUNE_THROW adds"]
 
 
 def replay(ctx, path):
